@@ -576,18 +576,19 @@ def buffer_op(B, fn, args):
         idx = getinteger(args[1])
         if idx < 0 or idx > n:
             raise Raise()
-        del cur[idx:]
+        # "Same as buffer/push, but copies the new data into the buffer at index": the bytes are written in place
+        # from idx on, the tail beyond them stays, the buffer grows when they reach past the end; the buffer itself
+        # as an argument is read as it is when that argument is reached; an ill-typed argument raises after the
+        # earlier ones were written
+        pos = idx
         try:
-            _push_items(cur, args[2:])
+            for x in args[2:]:
+                d = bytes([getinteger(x) & 0xFF]) if is_number(x) else bytes(bytes_of(x, cur))
+                cur[pos:pos + len(d)] = d
+                pos += len(d)
         except Raise:
-            # the count is left at index + what was pushed (not restored)
-            if bytes(cur) != bytes(B):
-                raise Partial(bytes(cur), len(cur))
-            raise Raise()
-        peak = len(cur)
-        if len(cur) < n:
-            cur.extend(B[len(cur):])
-        return SELF, bytes(cur), ("need", peak)
+            partial_or_raise(len(cur))
+        return SELF, bytes(cur), ("need", len(cur))
     if fn in ("buffer/push-uint16", "buffer/push-uint32", "buffer/push-uint64",
               "buffer/push-float32", "buffer/push-float64"):
         if len(args) != 3:
